@@ -52,6 +52,7 @@ class ContinuedFraction:
       body_end=[("C19", "implies(len(res) >= 3, res[len(res) - 1][1] == res[len(res) - 1][0] * res[len(res) - 2][1] "
                         "+ res[len(res) - 3][1] and res[len(res) - 1][2] == res[len(res) - 1][0] * res[len(res) - 2][2] "
                         "+ res[len(res) - 3][2])"),
+                ("C19", "implies(len(res) == 2, res[1][1] == res[1][0] * res[0][1] + 1 and res[1][2] == res[1][0] * res[0][2])"),
                 ("C19", "forall(j, 2, len(res) - 1, res[j][1] == res[j][0] * res[j - 1][1] + res[j - 2][1] "
                         "and res[j][2] == res[j][0] * res[j - 1][2] + res[j - 2][2])")],
       variant="b")}
@@ -68,12 +69,17 @@ class Inverse2exp:
   loops = {0: dict(
       invariant=["t >= 2", "t <= k or t == 2", "(a * n) % pow2(t) == 1"],
       variant="k - t",
+      at_exit=["t == k or (t == 2 and k == 1)",
+               "by((a * n) % pow2(k) == 1, (a * n) % pow2(t) == 1, t == k or (t == 2 and k == 1), "
+               "pow2(1) == 2, pow2(2) == 4)"],
       # Hensel step: a*n = 1 + c*P  ==>  a(2-an)n = 1 - c^2 P^2, and P' = pow2(t') divides P^2 = pow2(2*pre_t)
-      body_end=["pow2_add(pre_t, pre_t)", "pow2_add(t, 2 * pre_t - t)",
-                "a * n == 1 + pow2(t) * (-pow2(2 * pre_t - t) * idiv(pre_a * n, pow2(pre_t)) * idiv(pre_a * n, pow2(pre_t))"
-                " - idiv(pre_a * (2 - pre_a * n), pow2(t)) * n)",
-                "euclid(a * n, pow2(t), 1, -pow2(2 * pre_t - t) * idiv(pre_a * n, pow2(pre_t)) * idiv(pre_a * n, pow2(pre_t))"
-                " - idiv(pre_a * (2 - pre_a * n), pow2(t)) * n)"])}
+      body_end=[
+          "let P = pow2(pre_t)", "let Q = pow2(t)", "let e = pow2(2 * pre_t - t)",
+          "let c = idiv(pre_a * n, P)", "let X = pre_a * (2 - pre_a * n)", "let q = idiv(X, Q)",
+          "pow2_add(pre_t, pre_t)", "pow2_add(t, 2 * pre_t - t)", "divmod_def(pre_a * n, P)", "divmod_def(X, Q)",
+          "P * P == Q * e", "pre_a * n == P * c + 1", "a == X - Q * q",
+          "by(a * n == 1 + Q * (-e * c * c - q * n), P * P == Q * e, pre_a * n == P * c + 1, a == X - Q * q)",
+          "euclid(a * n, Q, 1, -e * c * c - q * n)"])}
   total = True
 
 
@@ -98,13 +104,19 @@ class InverseSqrt2exp:
               "let E = pre_a * pre_a * n - 1", "let c = idiv(pre_a * pre_a * n, P)", "let h = idiv(E, 2)",
               "let q = idiv(idiv(pre_a * (3 - pre_a * pre_a * n), 2), Q)",
               "pow2_add(t, 2 * pre_t - 2 - t)", "pow2_add(2 * pre_t - 2, 2)", "pow2_add(pre_t, pre_t)",
-              "divmod_def(pre_a * pre_a * n, P)", "P * P == 4 * Q * e", "E == P * c", "divmod_def(E, 2)", "E == 2 * h",
-              "idiv(pre_a * (3 - pre_a * pre_a * n), 2) == pre_a * (1 - h)",
-              "a == pre_a * (1 - h) - Q * q",
-              "4 * ((pre_a * (1 - h)) * (pre_a * (1 - h)) * n - 1) == E * E * (E - 3)",
-              "(pre_a * (1 - h)) * (pre_a * (1 - h)) * n - 1 == Q * (e * c * c * (E - 3))",
-              "a * a * n == 1 + Q * (e * c * c * (E - 3) - q * n * (2 * pre_a * (1 - h)) + q * q * Q * n)",
-              "euclid(a * a * n, Q, 1, e * c * c * (E - 3) - q * n * (2 * pre_a * (1 - h)) + q * q * Q * n)",
+              "divmod_def(pre_a * pre_a * n, P)", "P * P == 4 * Q * e",
+              "by(E == P * c, pre_a * pre_a * n == P * c + 1)",
+              "P == 2 * pow2(pre_t - 1)",
+              "by(E == 2 * h, E == P * c, P == 2 * pow2(pre_t - 1))",
+              "let y = pre_a * (1 - h)",
+              "by(idiv(pre_a * (3 - pre_a * pre_a * n), 2) == y, E == 2 * h)",
+              "divmod_def(y, Q)", "a == y - Q * q",
+              "by(4 * (y * y * n - 1) == E * E * (E - 3), E == 2 * h)",
+              "by(y * y * n - 1 == Q * (e * c * c * (E - 3)), 4 * (y * y * n - 1) == E * E * (E - 3), "
+              "E == P * c, P * P == 4 * Q * e)",
+              "by(a * a * n == 1 + Q * (e * c * c * (E - 3) - q * n * (2 * y) + q * q * Q * n), "
+              "y * y * n - 1 == Q * (e * c * c * (E - 3)), a == y - Q * q)",
+              "euclid(a * a * n, Q, 1, e * c * c * (E - 3) - q * n * (2 * y) + q * q * Q * n)",
           ]),
   }
   total = True
@@ -125,22 +137,31 @@ class Sqrt2exp:
               "exists(j, 0, len(result), result[j] == x))))"),
   ]
   return_hints = [
-      ("C19", "let P = pow2(k)"), ("C19", "let H = pow2(k - 1)"),
-      ("C19", "implies(len(result) == 4 and k >= 3, P == 2 * H and H * H == P * pow2(k - 2) and pow2_add(k - 1, k - 1) "
-              "and pow2_add(k, k - 2))"),
+      ("C19", "let P = pow2(k)"), ("C19", "let H = pow2(k - 1)"), ("C19", "let T = pow2(k - 2)"),
+      ("C19", "implies(len(result) == 4 and k >= 3, P == 2 * H and pow2_add(k - 1, k - 1) and pow2_add(k, k - 2))"),
+      ("C19", "implies(len(result) == 4 and k >= 3, H * H == P * T)"),
       ("C19", "let c1 = idiv(s * s * n, P) if len(result) == 4 and k >= 3 else 0"),
       ("C19", "let c2 = idiv(r * s, P) if len(result) == 4 and k >= 3 else 0"),
-      ("C19", "let rr = r if len(result) == 4 and k >= 3 else 0"),
-      ("C19", "let w = rr * rr * (2 * c2 + P * c2 * c2 - c1) - (2 * c2 + P * c2 * c2) * (rr * rr - n)"),
-      ("C19", "implies(len(result) == 4 and k >= 3, s * s * n == 1 + P * c1 and rr * s == 1 + P * c2)"),
-      ("C19", "implies(len(result) == 4 and k >= 3, rr * rr - n == P * w)"),
-      ("C19", "implies(len(result) == 4 and k >= 3, euclid(result[0] * result[0] - n, P, 0, w))"),
-      ("C19", "implies(len(result) == 4 and k >= 3, euclid(result[1] * result[1] - n, P, 0, P - 2 * rr + w))"),
-      ("C19", "let q3 = idiv(H - rr, P)"), ("C19", "let q4 = idiv(H + rr, P)"),
-      ("C19", "implies(len(result) == 4 and k >= 3, result[2] == H - rr - P * q3 and result[3] == H + rr - P * q4)"),
-      ("C19", "implies(len(result) == 4 and k >= 3, euclid(result[2] * result[2] - n, P, 0, "
-              "pow2(k - 2) - rr + w - 2 * q3 * (H - rr) + P * q3 * q3))"),
-      ("C19", "implies(len(result) == 4 and k >= 3, euclid(result[3] * result[3] - n, P, 0, "
-              "pow2(k - 2) + rr + w - 2 * q4 * (H + rr) + P * q4 * q4))"),
+      ("C19", "let w = (r * r * (2 * c2 + P * c2 * c2 - c1) - (2 * c2 + P * c2 * c2) * (r * r - n)) if len(result) == 4 and k >= 3 else 0"),
+      ("C19", "implies(len(result) == 4 and k >= 3, divmod_def(s * s * n, P) and divmod_def(r * s, P))"),
+      ("C19", "implies(len(result) == 4 and k >= 3, s * s * n == 1 + P * c1 and r * s == 1 + P * c2)"),
+      ("C19", "implies(len(result) == 4 and k >= 3, by(r * r - n == P * w, s * s * n == 1 + P * c1, r * s == 1 + P * c2, "
+              "w == r * r * (2 * c2 + P * c2 * c2 - c1) - (2 * c2 + P * c2 * c2) * (r * r - n)))"),
+      ("C19", "let q3 = idiv(H - r, P) if len(result) == 4 and k >= 3 else 0"), ("C19", "let q4 = idiv(H + r, P) if len(result) == 4 and k >= 3 else 0"),
+      ("C19", "implies(len(result) == 4 and k >= 3, divmod_def(H - r, P) and divmod_def(H + r, P))"),
+      ("C19", "implies(len(result) == 4 and k >= 3, result[0] == r and result[1] == P - r and result[2] == H - r - P * q3 "
+              "and result[3] == H + r - P * q4)"),
+      ("C19", "implies(len(result) == 4 and k >= 3, by(result[0] * result[0] - n == P * w, result[0] == r, r * r - n == P * w))"),
+      ("C19", "implies(len(result) == 4 and k >= 3, by(result[1] * result[1] - n == P * (P - 2 * r + w), result[1] == P - r, r * r - n == P * w))"),
+      ("C19", "implies(len(result) == 4 and k >= 3, by(result[2] * result[2] - n == P * (T - r + w - 2 * q3 * (H - r) + P * q3 * q3), "
+              "result[2] == H - r - P * q3, r * r - n == P * w, H * H == P * T, P == 2 * H))"),
+      ("C19", "implies(len(result) == 4 and k >= 3, by(result[3] * result[3] - n == P * (T + r + w - 2 * q4 * (H + r) + P * q4 * q4), "
+              "result[3] == H + r - P * q4, r * r - n == P * w, H * H == P * T, P == 2 * H))"),
+      ("C19", "implies(len(result) == 4 and k >= 3, euclid(result[0] * result[0] - n, P, 0, w) and "
+              "euclid(result[1] * result[1] - n, P, 0, P - 2 * r + w) and "
+              "euclid(result[2] * result[2] - n, P, 0, T - r + w - 2 * q3 * (H - r) + P * q3 * q3) and "
+              "euclid(result[3] * result[3] - n, P, 0, T + r + w - 2 * q4 * (H + r) + P * q4 * q4))"),
+      ("C19", "implies(len(result) == 4 and k >= 3, (result[0] * result[0] - n) % P == 0 and (result[1] * result[1] - n) % P == 0 and "
+              "(result[2] * result[2] - n) % P == 0 and (result[3] * result[3] - n) % P == 0)"),
   ]
   total = True
